@@ -382,3 +382,291 @@ Proof.
   unfold in_range_fixed, slot_epoch. cbn [fst]. rewrite Hi.
   now rewrite (slot_epoch_wf _ y (s_pos sl) T Hy Hp).
 Qed.
+
+(* ------------------------------------------------------------------ variable-length buckets *)
+
+(** candidates, when the second stage does not panic *)
+Lemma read_var_files_ok b s e fs c : read_var_files b s e fs = Ok c ->
+  c = flat_map (fun f => flat_map s_recs (scan_file (b_tf b) (b_reclen b) s e f)) fs.
+Proof.
+  revert c; induction fs as [|f fs IH]; intros c H; cbn [read_var_files flat_map] in *.
+  - now inversion H.
+  - destruct (read_var_file b s e f) as [a| |] eqn:Ea; cbn [bindR] in H; try discriminate.
+    destruct (read_var_files b s e fs) as [r| |] eqn:Er; cbn [bindR] in H; try discriminate.
+    inversion H; subst c. rewrite (IH r eq_refl). f_equal.
+    unfold read_var_file in Ea. destruct (scan_file (b_tf b) (b_reclen b) s e f) as [|sl sls] eqn:Es.
+    + now inversion Ea.
+    + destruct (second_stage_buf (b_vrl b) (sl :: sls) (4 * sum_clen (sl :: sls)) 0); cbn [bindR] in Ea; try discriminate.
+      now inversion Ea.
+Qed.
+
+(** rows sorted by full-precision time *)
+Lemma sorted_tns_tail a rest : sorted_tns (a :: rest) = true -> sorted_tns rest = true.
+Proof. cbn [sorted_tns]. destruct rest; [reflexivity|]. now intros H%andb_prop. Qed.
+
+Lemma sorted_tns_app a b : sorted_tns a = true -> sorted_tns b = true ->
+  (forall x y, In x a -> In y b -> row_tns x <= row_tns y) -> sorted_tns (a ++ b) = true.
+Proof.
+  induction a as [|x a IH]; intros Sa Sb C; [exact Sb|].
+  cbn [app]. destruct a as [|x' a'].
+  - cbn [app]. destruct b as [|y b']; [reflexivity|].
+    cbn [sorted_tns]. apply andb_true_iff; split; [|exact Sb].
+    apply Z.leb_le. apply C; now left.
+  - cbn [sorted_tns app] in *. apply andb_prop in Sa as [S1 S2].
+    apply andb_true_iff; split; [exact S1|].
+    apply IH; [exact S2 | exact Sb |]. intros u v Hu Hv. apply C; [now right | exact Hv].
+Qed.
+
+(** blocks with disjoint, ordered time bounds concatenate to a sorted list *)
+Lemma sorted_blocks {A} (lo hi : A -> Z) (rows : A -> list vrow) (l : list A) :
+  (forall a, In a l -> sorted_tns (rows a) = true /\ Forall (fun r => lo a <= row_tns r < hi a) (rows a)) ->
+  StronglySorted (fun a b => hi a <= lo b) l ->
+  sorted_tns (flat_map rows l) = true.
+Proof.
+  intros H S. induction S as [|a l S IH Fa]; [reflexivity|].
+  cbn [flat_map]. apply sorted_tns_app.
+  - apply H. now left.
+  - apply IH. intros x Hx. apply H. now right.
+  - intros x y Hx Hy. apply in_flat_map in Hy as (c & Hc & Hy).
+    destruct (H a (or_introl eq_refl)) as [_ Ba]. destruct (H c (or_intror Hc)) as [_ Bc].
+    rewrite Forall_forall in Ba, Bc, Fa. specialize (Ba x Hx). specialize (Bc y Hy). specialize (Fa c Hc). lia.
+Qed.
+
+Lemma StronglySorted_filter {A} (R : A -> A -> Prop) (g : A -> bool) l :
+  StronglySorted R l -> StronglySorted R (filter g l).
+Proof.
+  induction 1 as [|a l S IH Fa]; [constructor|]. cbn [filter]. destruct (g a); [|exact IH].
+  constructor; [exact IH|]. apply Forall_forall. intros x Hx. apply filter_In in Hx as [Hx _].
+  rewrite Forall_forall in Fa. now apply Fa.
+Qed.
+
+Lemma strictly_asc_strong l : strictly_asc l = true -> StronglySorted Z.lt l.
+Proof.
+  induction l as [|a l IH]; intros H; [constructor|].
+  assert (T : strictly_asc l = true).
+  { cbn [strictly_asc] in H. destruct l; [reflexivity|]. now apply andb_prop in H. }
+  specialize (IH T). constructor; [exact IH|].
+  destruct l as [|b l]; [constructor|].
+  cbn [strictly_asc] in H. apply andb_prop in H as [H1 _]. apply Z.ltb_lt in H1.
+  constructor; [exact H1|]. inversion IH as [|? ? _ Fb]; subst.
+  eapply Forall_impl; [|exact Fb]. cbv beta. intros; lia.
+Qed.
+
+Lemma StronglySorted_map_inv {A} (f : A -> Z) (R : A -> A -> Prop) l :
+  (forall a b, f a < f b -> R a b) -> StronglySorted Z.lt (map f l) -> StronglySorted R l.
+Proof.
+  intros HR. induction l as [|a l IH]; intros S; [constructor|].
+  cbn [map] in S. inversion S as [|? ? S' Fa]; subst. constructor; [now apply IH|].
+  apply Forall_forall. intros x Hx. apply HR. rewrite Forall_forall in Fa. apply Fa. now apply in_map.
+Qed.
+
+(** what a well-formed variable slot says about its records *)
+Lemma wf_slot_var b y sl : b_var b = true -> wf_slot b y sl = true ->
+  sorted_tns (s_recs sl) = true /\
+  Forall (fun r => wf_row (Z.to_nat (b_vrl b) - 4) r /\ sane_row r = true
+                   /\ slot_start_ns (b_tf b) y (s_pos sl) <= row_tns r < slot_start_ns (b_tf b) y (s_pos sl) + b_tf b)
+         (s_recs sl).
+Proof.
+  intros V. unfold wf_slot. rewrite V, !andb_true_iff. intros (_ & F & S). split; [exact S|].
+  apply forallb_Forall in F. eapply Forall_impl; [|exact F]. cbv beta.
+  intros r Hr. rewrite !andb_true_iff, Z.leb_le, Z.ltb_lt in Hr. destruct Hr as (((Wr & Sr) & L) & U).
+  split; [|tauto]. unfold wf_rowb in Wr. rewrite !andb_true_iff, Nat.eqb_eq, !in_ityb_spec in Wr. unfold wf_row. tauto.
+Qed.
+
+Lemma wf_bucket_vrl b : wf_bucket b = true -> b_var b = true -> 4 <= b_vrl b <= 65536.
+Proof.
+  unfold wf_bucket. rewrite !andb_true_iff. intros (((_ & H) & _) & _) V. rewrite V in H.
+  rewrite !andb_true_iff, Z.eqb_eq, !Z.leb_le in H. lia.
+Qed.
+
+Lemma wf_bucket_years b : wf_bucket b = true -> strictly_asc (map y_year (b_files b)) = true.
+Proof. unfold wf_bucket. rewrite !andb_true_iff. now intros ((_ & H) & _). Qed.
+
+(** the record properties every row of a well-formed variable bucket has *)
+Definition good_row (b : bucket) (r : vrow) : Prop :=
+  wf_row (Z.to_nat (b_vrl b) - 4) r /\ sane_row r = true.
+
+(** rows of (any selection of) one well-formed file: sorted, inside the year *)
+Lemma file_rows b f (g : slot -> bool) : wf_bucket b = true -> b_var b = true -> wf_file b f = true ->
+  let R := flat_map s_recs (filter g (y_slots f)) in
+  sorted_tns R = true
+  /\ Forall (fun r => year_start_ns (y_year f) <= row_tns r < year_start_ns (y_year f + 1)) R
+  /\ Forall (good_row b) R.
+Proof.
+  intros W V Wf. pose proof (wf_bucket_tf b W) as T. pose proof (tf_pos _ T) as P.
+  destruct (wf_file_spec b f Wf) as (Hy & Asc & Fs). rewrite Forall_forall in Fs.
+  assert (Hin : forall sl, In sl (filter g (y_slots f)) -> wf_slot b (y_year f) sl = true).
+  { intros sl H. apply filter_In in H as [H _]. now apply Fs. }
+  cbv zeta. split; [|split].
+  - apply (sorted_blocks (fun sl => slot_start_ns (b_tf b) (y_year f) (s_pos sl))
+                         (fun sl => slot_start_ns (b_tf b) (y_year f) (s_pos sl) + b_tf b)).
+    + intros sl Hsl. destruct (wf_slot_var b _ sl V (Hin sl Hsl)) as [S F]. split; [exact S|].
+      eapply Forall_impl; [|exact F]. cbv beta. tauto.
+    + apply StronglySorted_filter. apply (StronglySorted_map_inv s_pos).
+      * intros a c Hac. unfold slot_start_ns.
+        destruct (slot_num_shift (b_tf b)) as (d & _ & Sh). rewrite !Sh.
+        pose proof (mul_lt_step (s_pos a - d) (s_pos c - d) (b_tf b) P ltac:(lia)). lia.
+      * now apply strictly_asc_strong.
+  - apply Forall_forall. intros r Hr. apply in_flat_map in Hr as (sl & Hsl & Hr).
+    destruct (wf_slot_var b _ sl V (Hin sl Hsl)) as [_ F]. rewrite Forall_forall in F.
+    destruct (F r Hr) as (_ & _ & B).
+    destruct (wf_slot_pos b _ sl (Hin sl Hsl)) as (Hp & _ & _).
+    destruct (pos_ok_spec _ _ _ T Hp) as (_ & _ & P3 & P4). lia.
+  - apply Forall_forall. intros r Hr. apply in_flat_map in Hr as (sl & Hsl & Hr).
+    destruct (wf_slot_var b _ sl V (Hin sl Hsl)) as [_ F]. rewrite Forall_forall in F.
+    destruct (F r Hr) as (A & B & _). split; assumption.
+Qed.
+
+(** rows of (any per-file selection of) a well-formed bucket: sorted *)
+Lemma bucket_rows b (g : yfile -> slot -> bool) : wf_bucket b = true -> b_var b = true ->
+  let R := flat_map (fun f => flat_map s_recs (filter (g f) (y_slots f))) (b_files b) in
+  sorted_tns R = true /\ Forall (good_row b) R.
+Proof.
+  intros W V. pose proof (wf_bucket_files b W) as Ff. rewrite Forall_forall in Ff.
+  cbv zeta. split.
+  - apply (sorted_blocks (fun f => year_start_ns (y_year f)) (fun f => year_start_ns (y_year f + 1))).
+    + intros f Hf. destruct (file_rows b f (g f) W V (Ff f Hf)) as (S & B & _). split; assumption.
+    + apply (StronglySorted_map_inv y_year).
+      * intros a c Hac. apply year_start_mono. lia.
+      * apply strictly_asc_strong. now apply wf_bucket_years.
+  - apply Forall_forall. intros r Hr. apply in_flat_map in Hr as (f & Hf & Hr).
+    destruct (file_rows b f (g f) W V (Ff f Hf)) as (_ & _ & G). rewrite Forall_forall in G. now apply G.
+Qed.
+
+(** Go's order on sane rows is the order of total nanoseconds *)
+Lemma sane_row_spec r : sane_row r = true -> sane_sec (r_sec r) /\ sane_ns (r_ns r).
+Proof.
+  unfold sane_row, sane_sec, sane_ns. rewrite !andb_true_iff, !Z.leb_le, Z.ltb_lt. tauto.
+Qed.
+
+Lemma sorted_tns_rows rows : Forall (fun r => sane_row r = true) rows ->
+  sorted_tns rows = true -> sorted_rows rows = true.
+Proof.
+  induction rows as [|a rest IH]; intros F S; [reflexivity|].
+  inversion F as [|? ? Fa Fr]; subst. destruct rest as [|c rest']; [reflexivity|].
+  cbn [sorted_tns sorted_rows] in *. apply andb_prop in S as [S1 S2].
+  inversion Fr as [|? ? Fc _]; subst.
+  destruct (sane_row_spec a Fa) as [A1 A2]. destruct (sane_row_spec c Fc) as [C1 C2].
+  apply andb_true_iff; split; [| now apply IH].
+  unfold row_time. rewrite (t_le_tns _ _ _ _ A1 A2 C1 C2). exact S1.
+Qed.
+
+Lemma sane_time_wide t : sane_time t = true -> sane_sec (fst t) /\ sane_ns (snd t).
+Proof.
+  intros H. apply sane_time_spec in H as [Hs Hn].
+  unfold sane_sec, sane_ns, sec_lo, sec_hi, nsPerSec in *. change (2 ^ 62) with 4611686018427387904.
+  change (2 ^ 31) with 2147483648. lia.
+Qed.
+
+Lemma in_range_row_var s e r : sane_time s = true -> sane_time e = true -> sane_row r = true ->
+  in_range_row (q_go s) (q_go e) r = in_range_var s e r.
+Proof.
+  intros Hs He Hr. destruct (sane_time_wide s Hs) as [S1 S2]. destruct (sane_time_wide e He) as [E1 E2].
+  destruct (sane_row_spec r Hr) as [R1 R2].
+  unfold in_range_row, in_range_var, row_time, q_go. rewrite t_ge_le.
+  rewrite (t_le_tns _ _ _ _ S1 S2 R1 R2), (t_le_tns _ _ _ _ R1 R2 E1 E2). reflexivity.
+Qed.
+
+(** a slot the plan does not select holds no record of the range *)
+Lemma nosel_out b s e y sl : wf_bucket b = true -> b_var b = true ->
+  sane_time s = true -> sane_time e = true -> 1 <= y <= 9999 -> wf_slot b y sl = true ->
+  selb (b_tf b) s e y (s_pos sl) = false ->
+  Forall (fun r => in_range_var s e r = false) (s_recs sl).
+Proof.
+  intros W V Hs He Hy Ws Sel. pose proof (wf_bucket_tf b W) as T. pose proof (tf_pos _ T) as P.
+  destruct (wf_slot_pos b y sl Ws) as (Hp & _ & _).
+  destruct (wf_slot_var b y sl V Ws) as [_ F].
+  rewrite (selb_range _ s e y (s_pos sl) T Hs He Hy Hp) in Sel.
+  destruct (pos_ok_spec _ _ _ T Hp) as (_ & P2 & P3 & P4).
+  destruct (q_year s Hs) as [_ Rs]. pose proof (q_bracket s Hs) as Bs.
+  (* the gap: a slot starting before the interval of s ends at or before its start *)
+  assert (Gap : slot_start_ns (b_tf b) y (s_pos sl) < istart_ns (b_tf b) s ->
+                slot_start_ns (b_tf b) y (s_pos sl) + b_tf b <= istart_ns (b_tf b) s /\ istart_ns (b_tf b) s <= q_ns s).
+  { unfold istart_ns, slot_start_ns in *. change (year_of_days (fst s / 86400)) with (qyr s).
+    set (n := slot_num (b_tf b) (s_pos sl)) in *.
+    set (ks := (q_ns s - year_start_ns (qyr s)) / b_tf b).
+    pose proof (div_mul_bracket (q_ns s - year_start_ns (qyr s)) (b_tf b) P) as Ds. fold ks in Ds.
+    assert (K0 : 0 <= ks * b_tf b).
+    { assert (0 <= ks) by (apply Z.div_pos; lia). nia. }
+    intros Lt. split; [|lia].
+    destruct (Z.lt_trichotomy y (qyr s)) as [L|[E|G]].
+    - pose proof (year_start_mono (y + 1) (qyr s) ltac:(lia)). lia.
+    - rewrite E in *. assert (n < ks) by nia. pose proof (mul_lt_step n ks (b_tf b) P H). lia.
+    - pose proof (year_start_mono (qyr s + 1) y ltac:(lia)). lia. }
+  eapply Forall_impl; [|exact F]. cbv beta. intros r (_ & _ & B). unfold in_range_var.
+  apply andb_false_iff in Sel as [Sel|Sel].
+  - apply Z.leb_gt in Sel. destruct (Gap Sel) as [G1 G2].
+    apply andb_false_iff. left. apply Z.leb_gt. lia.
+  - apply Z.leb_gt in Sel. apply andb_false_iff. right. apply Z.leb_gt. lia.
+Qed.
+
+Definition selg (b : bucket) (s e : qtime) (f : yfile) (sl : slot) : bool :=
+  selb (b_tf b) s e (y_year f) (s_pos sl) && occupied sl.
+
+Lemma cand_eq b s e : wf_bucket b = true -> sane_time s = true -> sane_time e = true ->
+  flat_map (fun f => flat_map s_recs (scan_file (b_tf b) (b_reclen b) (q_go s) (q_go e) f)) (b_files b)
+  = flat_map (fun f => flat_map s_recs (filter (selg b s e f) (y_slots f))) (b_files b).
+Proof.
+  intros W Hs He. pose proof (wf_bucket_tf b W) as T. pose proof (wf_bucket_reclen b W) as Hr.
+  pose proof (wf_bucket_files b W) as Ff. rewrite Forall_forall in Ff.
+  apply flat_map_ext_in. intros f Hf. destruct (wf_file_spec b f (Ff f Hf)) as (Hy & _ & _).
+  destruct f as [y sls]. cbn [y_year y_slots] in *. now rewrite scan_file_sel by assumption.
+Qed.
+
+Lemma filter_length_le' {A} (g : A -> bool) l : (length (filter g l) <= length l)%nat.
+Proof. induction l as [|x l IH]; cbn; [lia|]. destruct (g x); cbn; lia. Qed.
+
+Lemma Forall_filter {A} (P : A -> Prop) (g : A -> bool) l : Forall P l -> Forall P (filter g l).
+Proof.
+  intros H. apply Forall_forall. intros x Hx. apply filter_In in Hx as [Hx _].
+  rewrite Forall_forall in H. now apply H.
+Qed.
+
+(** restricting to the selected slots loses no record of the range *)
+Lemma filter_all_cand b s e : wf_bucket b = true -> b_var b = true ->
+  sane_time s = true -> sane_time e = true ->
+  filter (in_range_var s e) (var_rows_all b)
+  = filter (in_range_var s e) (flat_map (fun f => flat_map s_recs (filter (selg b s e f) (y_slots f))) (b_files b)).
+Proof.
+  intros W V Hs He. pose proof (wf_bucket_files b W) as Ff. rewrite Forall_forall in Ff.
+  unfold var_rows_all. rewrite !filter_flat_map. apply flat_map_ext_in. intros f Hf.
+  destruct (wf_file_spec b f (Ff f Hf)) as (Hy & _ & Fs).
+  induction (y_slots f) as [|sl sls IH]; [reflexivity|].
+  inversion Fs as [|? ? Ws Fs']; subst. specialize (IH Fs').
+  destruct (wf_slot_pos b _ sl Ws) as (_ & _ & Ho).
+  cbn [filter]. unfold selg at 1. rewrite Ho, andb_true_r.
+  destruct (selb (b_tf b) s e (y_year f) (s_pos sl)) eqn:Sel.
+  - cbn [flat_map]. rewrite !filter_app. now rewrite IH.
+  - cbn [flat_map]. rewrite filter_app, IH.
+    rewrite (filter_none _ _ (nosel_out b s e _ sl W V Hs He Hy Ws Sel)). reflexivity.
+Qed.
+
+Theorem read_var_filter b s e :
+  wf_bucket b = true -> b_var b = true -> sane_time s = true -> sane_time e = true ->
+  guard_C11 b s e = true ->
+  read_var b (q_go s) (q_go e) = Ok (enc_rows (filter (in_range_var s e) (var_rows_all b))).
+Proof.
+  intros W V Hs He G. unfold guard_C11 in G. rewrite V in G.
+  unfold read_var. destruct (var_candidates b (q_go s) (q_go e)) as [c| |] eqn:Ec; try discriminate.
+  apply andb_prop in G as [G L]. apply Z.leb_le in L.
+  cbn [bindR]. f_equal.
+  unfold var_candidates in Ec. apply read_var_files_ok in Ec. rewrite (cand_eq b s e W Hs He) in Ec.
+  destruct (bucket_rows b (selg b s e) W V) as [Srt Good]. cbv zeta in Srt, Good. rewrite <- Ec in Srt, Good.
+  pose proof (wf_bucket_vrl b W V) as Hv.
+  set (plen := (Z.to_nat (b_vrl b) - 4)%nat) in *.
+  assert (Erl : Z.to_nat (b_vrl b) = (plen + 4)%nat) by (subst plen; lia).
+  assert (Fwf : Forall (wf_row plen) c) by (eapply Forall_impl; [|exact Good]; intros r [A _]; exact A).
+  assert (Fsane : Forall (fun r => sane_row r = true) c) by (eapply Forall_impl; [|exact Good]; intros r [_ A]; exact A).
+  rewrite Erl, (trim_range_refines plen _ _ c Fwf).
+  rewrite (trim_rows_filter _ _ c (sorted_tns_rows c Fsane Srt) G).
+  assert (Ef : filter (in_range_row (q_go s) (q_go e)) c = filter (in_range_var s e) c).
+  { apply filter_ext_in. intros r Hr. rewrite Forall_forall in Fsane. now apply in_range_row_var; [| |apply Fsane]. }
+  rewrite Ef.
+  (* the row limit MaxInt32 is not reached *)
+  unfold trim_limit. rewrite row_length_eq.
+  rewrite (enc_rows_length plen _ (Forall_filter _ _ _ Fwf)), Nat.div_mul by lia.
+  pose proof (filter_length_le' (in_range_var s e) c) as Lf.
+  replace (maxInt32 <? Z.of_nat (length (filter (in_range_var s e) c))) with false
+    by (symmetry; apply Z.ltb_ge; lia).
+  f_equal. rewrite Ec. symmetry. now apply filter_all_cand.
+Qed.
